@@ -630,9 +630,9 @@ class StmtMixin:
         try:
             seq = self.iter_seq(itv, p)
         except Unsupported:
-            # lenient mode: iterating an object of an abstract class without modelled state is a loop over an unmodelled iterable
+            # lenient mode: iterating an object of an abstract class (no source, no container model) is a loop over an unmodelled iterable
             d = self.classes.get(itv.cls) if isinstance(itv, VRef) and itv.cls else None
-            if self.lenient and d is not None and not d.fields and not d.box and d.record is None:
+            if self.lenient and d is not None and not d.box and d.record is None and not getattr(d, "mod", None):
                 return self.opaque_for(p, s, spec or LoopSpec(modifies=[]), k)
             raise
         c = z3.simplify(seq.len)
@@ -902,6 +902,8 @@ class StmtMixin:
                 continue
             for q2, oc2 in self.ex(s.body, q):
                 if oc2 is NEXT or oc2[0] == "continue":
+                    if getattr(spec, "body_end", None) is not None:
+                        spec.body_end(self, q2, s)       # (ghost bookkeeping / obligations at the end of an iteration; k not yet advanced)
                     if kind == "for":
                         q2.frame.locals[kname] = VInt(kv.z + 1)
                     for idx, inv in enumerate(spec.invariant):
